@@ -19,13 +19,14 @@ fn decode_history(u: &mut Unstructured) -> History {
     let final_strat = strat(u.arbitrary::<u8>().unwrap_or(0));
     let mut reqs = vec![];
     while !u.is_empty() && reqs.len() < 160 {
-        let op = u.arbitrary::<u8>().unwrap_or(0) % 10;
+        let op = u.arbitrary::<u8>().unwrap_or(0) % 11;
         match op {
+            10 => reqs.push(Req::RemoveEveryOther { phase: u.arbitrary::<bool>().unwrap_or(false) }),
             9 => reqs.push(Req::RemoveBurst { sel: u.arbitrary::<u16>().unwrap_or(0), count: 2 + u.arbitrary::<u8>().unwrap_or(0) % 40 }),
             0..=4 => {
                 let b = u.arbitrary::<u8>().unwrap_or(0);
                 let c = u.arbitrary::<u8>().unwrap_or(0);
-                let align = 1usize << (b % 8);
+                let align = 1usize << (b % 13);
                 let k = ((b >> 3) % 8) as usize;
                 reqs.push(Req::Add {
                     size: k * align,
